@@ -135,6 +135,19 @@ Definition effective_writable (allw : bool) (resw more : mask) : mask :=
   | Some w => Some (fm_union w (match more with Some x => normalize_paths x | None => [] end))
   end.
 
+(* WithUpdateMask followed by WithMoreUpdateMask / WithMoreUpdatePaths: a nil update mask ("all writable
+   fields") stays nil; otherwise the extra paths are added (fieldmaskpb.Union, normalized). [moreu] = None
+   when the option is not used. *)
+Definition effective_update (um moreu : mask) : mask :=
+  match moreu with
+  | None => um
+  | Some extra =>
+      match um with
+      | None => None
+      | Some ps => Some (fm_union ps extra)
+      end
+  end.
+
 (* Value.Set as far as masks are concerned: validate the written message against the masks, then
    merge into a clone of the stored value; an error leaves the stored value as it was. *)
 Inductive wres := WErr (code : Z) | WOk (stored : value) | WPanic.
